@@ -851,7 +851,8 @@ Section WithVars.
     | SBreak sp => if inside_loop ctx then ret None else fail KExotic sp
     | SContinue sp => if inside_loop ctx then ret None else fail KExotic sp
     | SUnreachable _ => ret None
-    | SBlob _ _ _ _ _ _ | SEnum _ _ _ _ _ | SExternalDefinition _ _ _ _ _ => panic PInnerDecl
+    (* the parser accepts these anywhere a statement is allowed: a type error since e6cc715 *)
+    | SBlob _ _ _ _ _ _ | SEnum _ _ _ _ _ | SExternalDefinition _ _ _ _ _ => fail KExotic (stmt_span s)
     end.
 
   Definition astep (R : arec) : arec := mkA (expr_body R) (stmt_body R) (type_body R).
@@ -869,8 +870,19 @@ Section WithVars.
     | (k', v') :: r => if String.eqb k k' then (k, v) :: r else (k', v') :: gen_insert k v r
     end.
 
-  (* the order in which the HashMap of fields / variants of a declaration is iterated (571, 612) *)
-  Variable orc : N -> list (string * (span * ty)) -> list (string * (span * ty)).
+  (* the fields / variants of a declaration are walked in source order: `sort_by_key(|(_, (s, _))|
+     (s.line_start, s.col_start))`, a stable sort (since 42df46d; no dependence on hash order) *)
+  Definition pos_le (a b : string * (span * ty)) : bool :=
+    let sa := fst (snd a) in let sb := fst (snd b) in
+    N.ltb (sp_line0 sa) (sp_line0 sb) || (N.eqb (sp_line0 sa) (sp_line0 sb) && N.leb (sp_col0 sa) (sp_col0 sb)).
+
+  Fixpoint pos_insert (x : string * (span * ty)) (l : list (string * (span * ty))) :=
+    match l with
+    | [] => [x]
+    | y :: ys => if pos_le y x then y :: pos_insert x ys else x :: l
+    end.
+
+  Definition source_order (l : list (string * (span * ty))) := fold_left (fun acc x => pos_insert x acc) l [].
 
   (* the two loops of the Enum / Blob arms of fn outer_statement (560-640) *)
   Definition decl_params (variables : list string) : M (list tyid * genmap) :=
@@ -893,13 +905,13 @@ Section WithVars.
     | SEnum name var sp variables variants =>
       enum_ty <- var_ty var ;;
       '(type_params, seen) <- decl_params variables ;;
-      resolved <- decl_fields R (length seen) (orc var variants) seen ;;
+      resolved <- decl_fields R (length seen) (source_order variants) seen ;;
       t <- push_type (HEnum name sp resolved type_params) ;;
       unify G sp t enum_ty ;;; ret tt
     | SBlob name var sp variables fields external =>
       blob_ty <- var_ty var ;;
       '(type_params, seen) <- decl_params variables ;;
-      resolved <- decl_fields R (length seen) (orc var fields) seen ;;
+      resolved <- decl_fields R (length seen) (source_order fields) seen ;;
       t <- push_type (if external then HExtBlob name sp resolved type_params var
                       else HBlob name sp resolved type_params) ;;
       unify G sp t blob_ty ;;; ret tt
@@ -943,16 +955,13 @@ Fixpoint kinds_of (vars : list var) (i : positive) (m : PositiveMap.t varkind) :
 Definition find_start (vars : list var) : option var :=
   List.find (fun v => String.eqb (v_name v) "start" && v_global v) vars.
 
-Definition id_orc : N -> list (string * (span * ty)) -> list (string * (span * ty)) := fun _ l => l.
-
 (* pub(crate) fn solve: the result of type checking (the final state is what `intermediate::compile` reads;
    only the verdict is observable here) *)
-Definition typecheck (fuel : nat) (orc : N -> list (string * (span * ty)) -> list (string * (span * ty)))
-           (r : resolved) : outcome unit :=
+Definition typecheck (fuel : nat) (r : resolved) : outcome unit :=
   let vars := r_vars r in
   let kinds := kinds_of vars 1 (PositiveMap.empty varkind) in
   let G := gfix fuel in
-  match (init_vars (length vars) ;;; solve kinds G orc (afix kinds G fuel) (r_stmts r) (find_start vars)) empty_st with
+  match (init_vars (length vars) ;;; solve kinds G (afix kinds G fuel) (r_stmts r) (find_start vars)) empty_st with
   | Ok _ => Ok tt
   | Err e more => Err e more
   | Panic p => Panic p
@@ -968,9 +977,8 @@ Inductive compiled (L : Type) :=
 | COutOfFuel.
 Arguments COk {L}. Arguments CErr {L}. Arguments CPanic {L}. Arguments COutOfFuel {L}.
 
-Definition compile_after_order {L} (lower : resolved -> L) (fuel : nat)
-           (orc : N -> list (string * (span * ty)) -> list (string * (span * ty))) (r : resolved) : compiled L :=
-  match typecheck fuel orc r with
+Definition compile_after_order {L} (lower : resolved -> L) (fuel : nat) (r : resolved) : compiled L :=
+  match typecheck fuel r with
   | Ok _ => COk (lower r)
   | Err e more => CErr e more
   | Panic p => CPanic p
